@@ -103,8 +103,14 @@ func genC08(rng *Rng, workdir string) *engSession {
 			days = 40
 		}
 	}
+	// in a third of the histories the engine is closed and reopened between some days (the daily update then
+	// runs on administrator state that was loaded, not set)
+	restarts := rng.Chance(1, 3)
 	for d := 0; d < days; d++ {
 		now := day * 86400
+		if restarts && rng.Chance(1, 5) {
+			s.restart()
+		}
 		s.update(now)
 		for i := 0; i < nTrav; i++ {
 			// did the update keep the promise of a trip whose last leg was reported?
